@@ -507,7 +507,7 @@ func extractReqServer(x *extractor) {
 	}
 	var pwCases []pwCase
 	var synth []x10Field
-	readyOnce, unwraps, baseOK := false, false, true
+	readyOnce, unwraps, baseOK, validates, kindChecked := false, false, true, false, false
 	if fd := pi.funcDecl("RequestServer.packetWorker"); fd == nil {
 		u.fail("RequestServer.packetWorker not found")
 	} else {
@@ -521,6 +521,13 @@ func extractReqServer(x *extractor) {
 			u.fail("packetWorker: body is not `for pkt := range pktChan {…}; return nil` (%s)", pi.pos(fd))
 		} else {
 			lb := x10Stmts(pi, loop.Body.List)
+			// optional pre-check between the unwrapping and `var rpkt`: a request whose attribute block does not match its
+			// flags is answered at once (one readyPacket, then continue) and never reaches the switch
+			const precheck = "if err := attrsError(pkt.requestPacket); err != nil { rs.pktMgr.readyPacket(rs.pktMgr.newOrderedResponse(statusFromError(pkt.id(), err), orderID)) continue }"
+			if len(lb) == 6 && x10Text(lb[2]) == precheck {
+				validates = true
+				lb = append(append([]ast.Stmt{}, lb[:2]...), lb[3:]...)
+			}
 			var ts *ast.TypeSwitchStmt
 			if len(lb) == 5 {
 				ts, _ = lb[3].(*ast.TypeSwitchStmt)
@@ -529,7 +536,8 @@ func extractReqServer(x *extractor) {
 			const ready = "rs.pktMgr.readyPacket(rs.pktMgr.newOrderedResponse(rpkt, orderID))"
 			if ts == nil || x10Text(lb[0]) != "orderID := pkt.orderID()" || x10Text(lb[2]) != "var rpkt responsePacket" ||
 				x10Text(ts.Assign) != "pkt := pkt.requestPacket.(type)" || ts.Init != nil {
-				u.fail("packetWorker: loop body is not {orderID := pkt.orderID(); unwrap; var rpkt; switch pkt := pkt.requestPacket.(type) {…}; readyPacket} (%s)", pi.pos(loop))
+				u.fail("packetWorker: loop body is not {orderID := pkt.orderID(); unwrap; [attrsError pre-check;] var rpkt; switch pkt := pkt.requestPacket.(type) {…}; readyPacket} (%s)", pi.pos(loop))
+				validates = false
 			} else {
 				unwraps = x10Text(lb[1]) == unwrap
 				if !unwraps {
@@ -539,7 +547,8 @@ func extractReqServer(x *extractor) {
 				if !readyOnce {
 					u.fail("packetWorker: the statement after the switch is not the single readyPacket call (%s)", pi.pos(lb[4]))
 				}
-				// exactly one readyPacket in the whole function, no jump out of a case
+				// every path through the loop body calls readyPacket exactly once: the one after the switch (plus the one of the
+				// pre-check path, which ends in `continue`), no other readyPacket in the function, no jump out of a case
 				n := 0
 				ast.Inspect(fd.Body, func(m ast.Node) bool {
 					if c, ok := m.(*ast.CallExpr); ok && strings.HasSuffix(exprString(c.Fun), ".readyPacket") {
@@ -547,7 +556,11 @@ func extractReqServer(x *extractor) {
 					}
 					return true
 				})
-				if n != 1 {
+				want := 1
+				if validates {
+					want = 2
+				}
+				if n != want {
 					readyOnce = false
 				}
 				ast.Inspect(ts, func(m ast.Node) bool {
@@ -612,6 +625,23 @@ func extractReqServer(x *extractor) {
 						}
 						return true
 					})
+					if len(names) == 1 && names[0] == "hasHandle" {
+						// handle := pkt.getHandle(); request, ok := rs.getRequest(handle);
+						// if !ok {EBADF} else if !request.servesPacket(pkt) {status} else {rpkt = request.call(…)}
+						cb := x10Stmts(pi, cc.Body)
+						if len(cb) == 3 && x10Text(cb[0]) == "handle := pkt.getHandle()" && x10Text(cb[1]) == "request, ok := rs.getRequest(handle)" {
+							if i1, ok := cb[2].(*ast.IfStmt); ok && i1.Init == nil && x10Text(i1.Cond) == "!ok" && !strings.Contains(x10Text(i1.Body), "request.") {
+								if i2, ok := i1.Else.(*ast.IfStmt); ok && i2.Init == nil && x10Text(i2.Cond) == "!request.servesPacket(pkt)" {
+									b2 := x10Texts(pi, i2.Body.List)
+									eb, isBlock := i2.Else.(*ast.BlockStmt)
+									if isBlock && len(b2) == 1 && strings.HasPrefix(b2[0], "rpkt = statusFromError(pkt.id(), ") && !strings.Contains(b2[0], "request.") &&
+										x10Eq(x10Texts(pi, eb.List), "rpkt = request.call(rs.Handlers, pkt, rs.pktMgr.alloc, orderID, rs.maxTxPacket)") {
+										kindChecked = true
+									}
+								}
+							}
+						}
+					}
 					for _, nm := range names {
 						pwCases = append(pwCases, pwCase{nm, w.flat, paths})
 					}
@@ -633,6 +663,132 @@ func extractReqServer(x *extractor) {
 	u.pf("def packetWorkerPaths : List (String × List (List (String × String))) := [\n%s]\n", strings.Join(parts, ",\n"))
 	u.pf("def packetWorkerReadyOnce : Bool := %s\n", leanBool(readyOnce))
 	u.pf("def packetWorkerUnwrapsExtended : Bool := %s\n", leanBool(unwraps))
+	// attrsError: OPEN / SETSTAT / FSETSTAT attribute blocks are decoded against their flags
+	var attrTypes []string
+	if validates {
+		fd := pi.funcDecl("attrsError")
+		good := fd != nil
+		if good {
+			body := x10Stmts(pi, fd.Body.List)
+			var ts *ast.TypeSwitchStmt
+			if len(body) == 7 {
+				ts, _ = body[2].(*ast.TypeSwitchStmt)
+			}
+			good = ts != nil && x10Text(body[0]) == "var flags uint32" && x10Text(body[1]) == "var attrs any" &&
+				x10Text(ts.Assign) == "p := pkt.(type)" && x10Text(body[3]) == "b, ok := attrs.([]byte)" &&
+				x10Text(body[4]) == "if !ok { return nil }" && x10Text(body[5]) == "_, _, err := unmarshalFileStat(flags, b)" &&
+				x10Text(body[6]) == "return err"
+			if good {
+				sawDefault := false
+				for _, c := range ts.Body.List {
+					cc := c.(*ast.CaseClause)
+					texts := x10Texts(pi, cc.Body)
+					if cc.List == nil {
+						sawDefault = x10Eq(texts, "return nil")
+						continue
+					}
+					if !x10Eq(texts, "flags, attrs = p.Flags, p.Attrs") {
+						good = false
+					}
+					for _, e := range cc.List {
+						attrTypes = append(attrTypes, typeName(e))
+					}
+				}
+				good = good && sawDefault
+			}
+		}
+		if !good {
+			u.fail("attrsError: body is not {switch p := pkt.(type) { case …: flags, attrs = p.Flags, p.Attrs; default: return nil }; b, ok := attrs.([]byte); …; _, _, err := unmarshalFileStat(flags, b); return err} (%s)", x10Pos(pi, fd))
+			validates = false
+			attrTypes = nil
+		}
+	}
+	u.pf("/-- `if err := attrsError(pkt.requestPacket); err != nil { readyPacket(status); continue }` precedes the type switch. -/\n")
+	u.pf("def packetWorkerValidatesAttrs : Bool := %s\n", leanBool(validates))
+	u.pf("def attrsErrorTypes : List String := %s\n", leanStrList(attrTypes))
+	// Request.servesPacket: packet type ↦ the handle methods that may serve it
+	type spRow struct {
+		typ  string
+		meth []string
+	}
+	var sp []spRow
+	spDefault := false
+	if fd := pi.funcDecl("Request.servesPacket"); fd != nil {
+		body := x10Stmts(pi, fd.Body.List)
+		var ts *ast.TypeSwitchStmt
+		if len(body) == 2 {
+			ts, _ = body[0].(*ast.TypeSwitchStmt)
+		}
+		good := ts != nil && x10Text(ts.Assign) == "pkt.(type)" && x10Text(body[1]) == "return true"
+		if good {
+			spDefault = true
+			for _, c := range ts.Body.List {
+				cc := c.(*ast.CaseClause)
+				cb := x10Stmts(pi, cc.Body)
+				var rs *ast.ReturnStmt
+				if len(cb) == 1 {
+					rs, _ = cb[0].(*ast.ReturnStmt)
+				}
+				if cc.List == nil || rs == nil || len(rs.Results) != 1 {
+					good = false
+					continue
+				}
+				// r.Method == "A" || r.Method == "B" || …
+				var meth []string
+				var walk func(e ast.Expr) bool
+				walk = func(e ast.Expr) bool {
+					be, ok := e.(*ast.BinaryExpr)
+					if !ok {
+						return false
+					}
+					if be.Op == token.LOR {
+						return walk(be.X) && walk(be.Y)
+					}
+					if be.Op == token.EQL && x10Text(be.X) == "r.Method" {
+						if m, ok := pi.exprStr(be.Y); ok {
+							meth = append(meth, m)
+							return true
+						}
+					}
+					return false
+				}
+				if !walk(rs.Results[0]) {
+					good = false
+					continue
+				}
+				for _, e := range cc.List {
+					sp = append(sp, spRow{typeName(e), meth})
+				}
+			}
+		}
+		if !good {
+			u.fail("Request.servesPacket: body is not `switch pkt.(type) { case *T: return r.Method == \"…\" || … }; return true` (%s)", pi.pos(fd))
+			sp, spDefault = nil, false
+		}
+	} else if kindChecked {
+		u.fail("packetWorker calls request.servesPacket but Request.servesPacket was not found")
+	}
+	parts = nil
+	for _, r := range sp {
+		parts = append(parts, fmt.Sprintf("(%s, %s)", leanStr(r.typ), leanStrList(r.meth)))
+	}
+	u.pf("/-- Request.servesPacket: packet type ↦ the methods of a handle that may serve it (other types: any). -/\n")
+	u.pf("def servesPacketTable : List (String × List String) := [%s]\n", strings.Join(parts, ", "))
+	u.pf("def servesPacketOtherTypesPass : Bool := %s\n", leanBool(spDefault))
+	spOK := spDefault && len(sp) == 3
+	if spOK {
+		want := map[string]string{"sshFxpReadPacket": "Get,Open", "sshFxpWritePacket": "Put,Open", "sshFxpReaddirPacket": "List"}
+		for _, r := range sp {
+			m := append([]string{}, r.meth...)
+			if want[r.typ] == "" || strings.Join(m, ",") != want[r.typ] {
+				spOK = false
+			}
+			delete(want, r.typ)
+		}
+	}
+	u.pf("/-- in `case hasHandle:` the guard `else if !request.servesPacket(pkt) { status }` stands between the EBADF branch and\n")
+	u.pf("`request.call`, and servesPacket is READ ↦ {Get, Open}, WRITE ↦ {Put, Open}, READDIR ↦ {List}. -/\n")
+	u.pf("def handleKindChecked : Bool := %s\n", leanBool(kindChecked && spOK))
 	u.pf("def requestFromPacketBaseIsStartDirectory : Bool := %s\n", leanBool(baseOK && len(pwCases) > 0))
 	u.pf("/-- Request literals built inside packetWorker: (case, field, provenance). -/\n")
 	u.pf("def packetWorkerRequestFields : List (String × String × String) := %s\n\n", x10LeanFields(synth))
